@@ -25,8 +25,15 @@ LEVEL_TEXT = ('Partial. Coq theorems over R about kernels regenerated from Tenso
               'lam of x^3+c2 x+c3 (3 lam^2+c2 != 0, which alone implies a nonzero pivot row and a nonzero Gram-Schmidt residual), eval0 and eval1 '
               'are exactly the other two roots (the polynomial factors as (x-lam)(x-eval0)(x-eval1)), evec2/evec0/evec1 are nonzero, mutually '
               'orthogonal and D evec = eval evec for each, in every branch of the routine (three pivots, either residual, both signs of the '
-              'shift, both vector formulas, the both_zero override); the exact trigonometric root is always simple, so the deflation run with it '
-              'is exact. Not proved there: the spectral theorem itself, the deflation run with the COMPUTED (4e-14-perturbed) eval2, double roots, '
+              'shift, both vector formulas, and -- as repaired in /repo e63b801 -- the pair (fac1, fac2) divided by facmax = '
+              'where(max(|fac1|,|fac2|) > 0, max, 1) with the both_zero fallback tested on the scaled pair: the proof uses only facmax > 0, the '
+              'fallback is unreachable when |rm2xx| < |rm2yy| and otherwise forces rm2xx = rm2yy = k_a_rm2xy = 0 where a_row2 is a null vector); '
+              'the exact trigonometric root is always simple, so the deflation run with it is exact. Not proved there: accuracy inside compiled '
+              'batches (jit(vmap)): the former finding EIGVMAP (eigenvectors not orthonormal on (nearly) double eigenvalues in batches of >= 2) '
+              'is repaired by e63b801 and the repair relies on XLA evaluating the division once (its fusion policy does not duplicate a '
+              'divide; not a JAX contract, see tools/vlib/eigvmap_fix_report.md) -- nothing about XLA is modelled in Coq, batched accuracy is tied '
+              'only by the streams (same tolerances as the single call, near-degenerate spectra included, and the EIGVMAP witness replayed in '
+              'batches of 2, 3, 8 on every run); the spectral theorem itself, the deflation run with the COMPUTED (4e-14-perturbed) eval2, double roots, '
               'the isotropic fallback and the final argsort, that eig_compose equals the one-piece segment kernel eig_deflate as Coq terms '
               '(conversion needs 3 minutes; both are executed at binary64 and compared bit for bit on every run), rounding. '
               'LinAlg.sqrtm_dbp (Denman-Beavers product form; 3x3 hand model of the loop body with the generated TensorMath.inv, tied by a '
@@ -54,10 +61,12 @@ TRUSTED = ['Coq 8.16.1 kernel + vm_compute (no native_compute); coq-interval for
            'of the sqrtm_dbp loop in the harness (source of the scale factors fed to the Coq model)']
 ASSUMPTIONS = ['exact real arithmetic in theorems (a)-(c)',
                'checker verdicts certify the explored instances only, with the stated tolerances (1e-11 relative for decompositions / '
-               'identities in a single compiled call, 1e-9 inside compiled batches and for derivative identities, 1e-6 relative for central-difference comparisons)',
+               'identities in a single compiled call AND inside compiled batches (since /repo e63b801; no spectrum is excused), 1e-9 for derivative '
+               'identities, 1e-6 relative for central-difference comparisons)',
                'nearly hydrostatic stream: 1e-13 relative to |A| (single call and batch); derivative rules versus the closed-form Daleckii-Krein '
-               'derivative: 1e-11 relative (1e-9 inside compiled batches at nearly repeated pairs with gap >= 1e-6; smaller gaps in batches are the '
-               'open finding EIGVMAP and are not evaluated); relative-difference kernels of the implementation versus 60-digit divided differences: '
+               'derivative: 1e-11 relative, single call and compiled batch alike, all gaps 1e-9..1e-3 evaluated in both modes; batched accuracy '
+               'rests on XLA evaluating the division fac/facmax once (fusion policy, jaxlib 0.4.28 CPU), tied by the streams only; '
+               'relative-difference kernels of the implementation versus 60-digit divided differences: '
                '1e-13 (arithmetic kernels) / 1e-12 (kernels using XLA log1p/expm1, themselves ~2e-14 accurate)',
                'the closed-form derivative reference uses the constructed (R, lam) of A = R diag(lam) R^T (A itself is that product rounded to binary64)',
                'jax.argsort is stable (ties keep the operand order) -- the translator models argsort of a 2-vector as a swap iff the second entry is strictly smaller',
@@ -86,7 +95,8 @@ RULE = ('symmetric 3x3 tensors A = s R diag(l) R^T: s over 1e-20..1e20 (40 decad
 IMPORTS = ['From OV.gen Require Import Gen_TensorMathFun.', 'From OV.model Require Import M_C12.']
 
 TOL = 1e-11    # single compiled call
-TOLB = 1e-9    # inside compiled batches (XLA's batched code rounds differently; accuracy degrades gracefully like eps/gap)
+TOLB = TOL     # inside compiled batches: the SAME tolerance as the single call since /repo e63b801 (finding EIGVMAP fixed; it was 1e-9
+               # with near-degenerate spectra excused while the finding was open)
 TOLD = 1e-9
 
 
@@ -467,10 +477,11 @@ def run_tight(ctx, n_nt, n_ntf, n_jvp):
             sc = float(onp.max(onp.abs(ref)))
             T1 = onp.array(jf('dk_' + key, tan, False)(np.array(A), np.array(E)))
             for batch, T in ((False, T1), (True, Tb[i])):
+                # (until /repo e63b801 batched near_double cases with g < 1e-6 were skipped as the range of the then open finding
+                #  EIGVMAP and the others got 1e-9; now every case is checked, single call and batch at the same tolerance)
                 if batch and mode == 'near_double' and g < 1e-6:
-                    ctx.count('batched_derivative_skipped_known_finding_EIGVMAP_range')
-                    continue
-                tol = (TOLB if (batch and mode == 'near_double') else TOLJ) * sc
+                    ctx.count('batched_derivative_checked_former_EIGVMAP_range')
+                tol = TOLJ * sc
                 meta = dict(check='d %s vs closed-form Daleckii-Krein' % key, kind=mode, gap=g, batch=batch, A=A.tolist(), D=E.tolist(),
                             scale=s, tangent=T.tolist(), reference=ref.tolist())
                 ctx.count('derivative_rule_vs_closed_form[%s]' % mode)
@@ -968,10 +979,10 @@ def correspondence(ctx, model_ok):
     for _, m in items:
         hist[m['check']] = hist.get(m['check'], 0) + 1
     ctx.cov['checks'] = hist
-    ctx.cov['tolerances'] = dict(identities=TOL, derivative_identities=TOLD, central_differences=1e-6)
+    ctx.cov['tolerances'] = dict(identities=TOL, identities_in_batches=TOLB, derivative_identities=TOLD, closed_form_derivative=TOLJ, central_differences=1e-6)
     ctx.sample(dict(items[0][1], expr=items[0][0][:300]))
-    # failures that are exactly the open known finding must not crowd out fresh ones (the thorough budget produces > 40 EIGVMAP
-    # rejections, and a cap applied before the driver's filtering hid every other rejection -- how two seeded changes were missed)
+    # failures that are exactly an OPEN known finding must not crowd out fresh ones (none is open since /repo e63b801 fixed EIGVMAP
+    # and matches_finding excuses nothing; the mechanism stays for future findings)
     known = [k for k in C.load_known_findings() if k['property'] == ID and k['status'] == 'open']
     is_known = lambda f: any(matches_finding(f, k) for k in known)
     fresh = [f for f in fails if not is_known(f)]
@@ -1013,21 +1024,36 @@ def search(ctx, reasons):
     return None
 
 
-def _eig_batch_error(A):
+def _eig_batch_error(A, batches=None):
+    """worst reconstruction / orthonormality error of eigen_sym33_unit on A inside jit(vmap) batches of size >= 2"""
     import jax
     import jax.numpy as np
     import numpy as onp
     from optimism import TensorMath as TM
-    lam, V = jax.jit(jax.vmap(TM.eigen_sym33_unit))(np.array([A, A]))
-    lam, V = onp.array(lam[0]), onp.array(V[0])
-    A = onp.array(A)
-    return float(onp.max(onp.abs(V @ onp.diag(lam) @ V.T - A))), float(onp.max(onp.abs(V.T @ V - onp.eye(3))))
+    A = onp.array(A, dtype=float)
+    g = jax.jit(jax.vmap(TM.eigen_sym33_unit))
+    rec = orth = 0.0
+    for stack, pos in (batches or [([A, A], 0)]):
+        lam, V = g(np.array(onp.array(stack)))
+        lam, V = onp.array(lam[pos]), onp.array(V[pos])
+        e1, e2 = float(onp.max(onp.abs(V @ onp.diag(lam) @ V.T - A))), float(onp.max(onp.abs(V.T @ V - onp.eye(3))))
+        rec = max(rec, e1) if e1 == e1 else float('inf')
+        orth = max(orth, e2) if e2 == e2 else float('inf')
+    return rec, orth
 
 
 def finding_fails(ctx, f):
     if f['id'] == 'EIGVMAP':
-        rec, orth = _eig_batch_error(f['witness']['A'])
-        return orth > 1e-9
+        # fixed in /repo e63b801; the witness (doubly degenerate tensor) is replayed on every run inside compiled batches of 2, 3 and 8
+        # (copies of itself, and mixed with a generic tensor at the first / middle / last position): a recurrence is a violation
+        import numpy as onp
+        A = onp.array(f['witness']['A'], dtype=float)
+        G = onp.array([[1.3, 0.2, -0.4], [0.2, 0.7, 0.1], [-0.4, 0.1, 2.1]])
+        batches = [([A, A], 0), ([A, A], 1), ([A, G], 0), ([G, A], 1), ([A, A, A], 1), ([G, A, G], 1), ([G, G, A], 2),
+                   ([A] * 8, 3), ([G, A, G, G, A, G, G, A], 7)]
+        rec, orth = _eig_batch_error(A, batches)
+        ctx.cov['EIGVMAP_witness_batch_errors'] = dict(reconstruction=rec, orthonormality=orth, tolerance=1e-12)
+        return not (rec <= 1e-12 and orth <= 1e-12)
     if f['id'] == 'EIGSIGN0':
         import jax
         import jax.numpy as np
@@ -1044,15 +1070,9 @@ def finding_fails(ctx, f):
 
 
 def matches_finding(fl, f):
-    """EIGVMAP: a spectral routine evaluated inside a compiled batch on a tensor with two (numerically) equal eigenvalues
-    (relative gap <= 1e-6), not a triple eigenvalue; anything else is a fresh violation"""
-    c = fl.get('case') or {}
-    if f['id'] != 'EIGVMAP':
-        return False
-    if not c.get('batch') or c.get('gap', 1.0) > 1e-6 or c.get('kind') in ('triple', 'near_triple'):
-        return False
-    chk = c.get('check', '')
-    return chk == 'eig' or chk.startswith(('sqrt', 'pow', 'exp(', 'log(', 'A*pow', 'equivariance'))
+    """No finding of C12 is open.  EIGVMAP (compiled batches, two (numerically) equal eigenvalues) was fixed in /repo e63b801 and
+    EIGSIGN0 in c7fec74: neither excuses anything any more -- every rejection is a fresh violation."""
+    return False
 
 
 def replay(ctx, path):
@@ -1071,7 +1091,7 @@ def replay(ctx, path):
         A, E, ref = np.array(case['A']), np.array(case['D']), onp.array(case['reference'])
         T = onp.array(jax.jit(jax.vmap(tan))(np.array([A, A]), np.array([E, E]))[0]) if case.get('batch') else onp.array(jax.jit(tan)(A, E))
         err = float(onp.max(onp.abs(T - ref))) / float(onp.max(onp.abs(ref)))
-        tol = TOLB if (case.get('batch') and case.get('kind') == 'near_double') else TOLJ
+        tol = TOLJ
         bad = not err <= tol
         print('implementation now: derivative rule of %s differs from the closed-form Daleckii-Krein derivative by %.3g relative (tolerance %.3g) -> %s'
               % (key, err, tol, 'FAILS' if bad else 'holds'))
